@@ -14,7 +14,7 @@ import tempfile
 
 SEED = sys.argv[1]
 HIST = json.loads(sys.argv[2])
-REAL = len(sys.argv) > 3 and sys.argv[3] == "real"
+REAL = len(sys.argv) > 3 and sys.argv[3] in ("real", "forkreal")
 
 DRAWS = []  # (index, n, hex, phase)
 PHASE = ["import"]
@@ -203,8 +203,24 @@ def k_bee():
             "hdr_kib_key": hdr._kib.kib_key, "hdr_prdb_counter": hdr._prdb.counter}, b""
 
 
-def k_hab():
-    """HAB encrypted image with self-chosen DEK and nonce, through nxpimage hab export (BD config of the repository's tests)."""
+_HAB_WS = []
+
+
+class _KeepDir:
+    """A workspace directory that survives between the artifacts of one history (a rebuild in the same folder)."""
+
+    def __enter__(self):
+        if not _HAB_WS:
+            _HAB_WS.append(tempfile.mkdtemp(prefix="c17habws"))
+        return _HAB_WS[0]
+
+    def __exit__(self, *a):
+        return False
+
+
+def k_hab(same_ws: bool = False):
+    """HAB encrypted image with self-chosen DEK and nonce, through nxpimage hab export (BD config of the repository's tests).
+    same_ws=True: every build of the history happens in the same workspace folder (rebuild after a change)."""
     import shutil
 
     from click.testing import CliRunner
@@ -212,10 +228,10 @@ def k_hab():
     from spsdk.apps import nxpimage
 
     src = os.path.join(TESTS, "nxpimage", "data", "hab", "export")
-    with tempfile.TemporaryDirectory() as td:
+    with (_KeepDir() if same_ws else tempfile.TemporaryDirectory()) as td:
         shutil.copytree(os.path.join(src, "rt1165_semcnand_encrypted_random"), td, dirs_exist_ok=True)
-        shutil.copytree(os.path.join(src, "keys"), os.path.join(td, "keys"))
-        shutil.copytree(os.path.join(src, "crts"), os.path.join(td, "crts"))
+        shutil.copytree(os.path.join(src, "keys"), os.path.join(td, "keys"), dirs_exist_ok=True)
+        shutil.copytree(os.path.join(src, "crts"), os.path.join(td, "crts"), dirs_exist_ok=True)
         cwd = os.getcwd()
         os.chdir(td)
         try:
@@ -245,12 +261,55 @@ def k_sb1():
 
 KINDS = {"sb20": k_sb20, "sb21": k_sb21, "advp": k_advp, "sb21cfg": k_sb21cfg, "mbi_class": k_mbi_class, "mbi_cfg": k_mbi_cfg,
          "otfad": k_otfad, "iee": k_iee, "bee": k_bee, "hab": k_hab, "hexstr": k_hexstr,
-         "sb21cfg_same": lambda: k_sb21cfg(True), "mbi_cfg_same": lambda: k_mbi_cfg(True)}
+         "sb21cfg_same": lambda: k_sb21cfg(True), "mbi_cfg_same": lambda: k_mbi_cfg(True), "hab_same": lambda: k_hab(True)}
+
+
+def fork_mode():
+    """argv[3] == "forkreal": real entropy. Build each kind of HIST once in this process (warms any module-level
+    state), then fork twice WITHOUT exec and build the same kinds in each child; report the fields of parent and
+    children. A value equal in two processes means entropy state was duplicated by fork()."""
+    import logging
+
+    logging.disable(logging.CRITICAL)
+
+    def build_all():
+        out = []
+        for kind in HIST:
+            try:
+                fields, _ = KINDS[kind]()
+                out.append({"kind": kind, "fields": {k: (v.hex() if isinstance(v, (bytes, bytearray)) else None) for k, v in fields.items()}})
+            except Exception as e:  # noqa
+                out.append({"kind": kind, "error": f"{type(e).__name__}: {e}"})
+        return out
+
+    res = {"parent": build_all(), "children": []}
+    for _ in range(2):
+        r, w = os.pipe()
+        pid = os.fork()
+        if pid == 0:
+            try:
+                os.close(r)
+                os.write(w, json.dumps(build_all()).encode())
+            finally:
+                os._exit(0)
+        os.close(w)
+        buf = b""
+        while True:
+            c = os.read(r, 65536)
+            if not c:
+                break
+            buf += c
+        os.close(r)
+        os.waitpid(pid, 0)
+        res["children"].append(json.loads(buf or b"[]"))
+    print("C17JSON" + json.dumps(res))
 
 
 def main():
     import logging
 
+    if len(sys.argv) > 3 and sys.argv[3] == "forkreal":
+        return fork_mode()
     logging.disable(logging.CRITICAL)
     arts = []
     for idx, kind in enumerate(HIST):
